@@ -60,6 +60,15 @@ enum Target {
     Native(usize),
     Untyped(REnv, Vec<RType>, String),
     NoType,
+    /// several reads on ONE deserializer, each attempted whatever the earlier ones returned, then `done()`:
+    /// native type / untyped at a type / untyped without a type
+    Sequence(Vec<Step>, String),
+}
+#[derive(Clone)]
+enum Step {
+    Native(usize),
+    At(REnv, RType),
+    Value,
 }
 
 struct Obs {
@@ -97,6 +106,40 @@ fn observe(target: Target, bytes: Vec<u8>, conf: Conf) -> Obs {
                 Ok(_) => 0,
                 Err(_) => 1,
             }),
+            Target::Sequence(steps, _) => {
+                let mut errs = 0usize;
+                match candid::de::IDLDeserialize::new_with_config(&bytes, &cfg) {
+                    Err(_) => Ok(1),
+                    Ok(mut de) => {
+                        let mut panic = None;
+                        for st in steps {
+                            let r = match st {
+                                Step::Native(i) => reg::with(*i, |t| t.get_from(&mut de)).map(|r| r.is_ok()),
+                                Step::At(env, t) => {
+                                    let (cenv, cts) = candid_side(env, std::slice::from_ref(t), None);
+                                    catch(|| de.get_value_with_type(&cenv, &cts[0]).is_ok())
+                                }
+                                Step::Value => catch(|| de.get_value::<candid::IDLValue>().is_ok()),
+                            };
+                            match r {
+                                Ok(true) => {}
+                                Ok(false) => errs += 1,
+                                Err(p) => {
+                                    panic = Some(p);
+                                    break;
+                                }
+                            }
+                        }
+                        match panic {
+                            Some(p) => Err(p),
+                            None => match catch(|| (de.is_done(), de.done().is_ok())) {
+                                Ok((_, ok)) => Ok(errs + usize::from(!ok)),
+                                Err(p) => Err(p),
+                            },
+                        }
+                    }
+                }
+            }
         });
         let st = alloc::stop();
         let steps = candid::verif::steps();
@@ -135,8 +178,10 @@ fn judge(ctx: &mut Ctx, family: &str, target: &Target, bytes: &[u8], conf: &Conf
         Target::Native(i) => reg::with(*i, |t| t.name()),
         Target::Untyped(_, _, l) => l.clone(),
         Target::NoType => "(no expected type)".into(),
+        Target::Sequence(_, l) => l.clone(),
     };
     let tkind = match target {
+        Target::Sequence(..) => "sequence-on-one-deserializer",
         Target::Native(_) => "native",
         Target::Untyped(..) => "untyped",
         Target::NoType => "from_bytes",
@@ -371,7 +416,7 @@ pub fn run(ctx: &mut Ctx) {
             _ => Target::NoType,
         }
     };
-    ctx.cases("mutated-native-messages", 0.25, |ctx, rng| {
+    ctx.cases("mutated-native-messages", 0.22, |ctx, rng| {
         let i = rng.usize(n_types);
         let nargs = 1 + rng.usize(2);
         let mut r2 = Rng::new(rng.next());
@@ -384,7 +429,59 @@ pub fn run(ctx: &mut Ctx) {
         ctx.nontrivial(hash_str(&format!("{}|{}", error_site(&bad), matches!(target, Target::Native(_)))));
         ctx.sample(|| json!({"bytes": hex(&bad), "conf": format!("{conf:?}")}));
     });
-    ctx.cases("mutated-wire-messages", 0.25, |ctx, rng| {
+    // several reads on one deserializer, continuing after errors (a caller that probes one type after another)
+    let composite: Vec<usize> = (0..n_types).filter(|i| matches!(reg::with(*i, |t| t.kind()), "struct" | "enum")).collect();
+    ctx.cases("reads-continue-after-errors", 0.08, |ctx, rng| {
+        let nargs = 1 + rng.usize(3);
+        let mut b = candid::ser::IDLBuilder::new();
+        let mut r2 = Rng::new(rng.next());
+        let mut own = Vec::new();
+        // half of the messages are made of structs and enums only: records and variants are where a read can fail
+        // between two fields
+        let composite_only = rng.bool();
+        for _ in 0..nargs {
+            let j = if composite_only && !composite.is_empty() { *rng.pick(&composite) } else { rng.usize(n_types) };
+            if reg::with(j, |t| t.arg_into(&mut b, &mut r2, 12)).is_err() {
+                return;
+            }
+            own.push(j);
+        }
+        let Ok(bytes) = b.serialize_to_vec() else { return };
+        let bad = if rng.chance(1, 3) { bytes.clone() } else { hostile::mutate(rng, &bytes) };
+        let mut steps = Vec::new();
+        let mut label = Vec::new();
+        for k in 0..1 + rng.usize(4) {
+            let st = match if composite_only && rng.chance(2, 3) { 2 } else { rng.below(6) } {
+                0 | 1 => Step::Native(*own.get(k).unwrap_or(&own[0])),
+                2 | 3 => {
+                    // another corpus type, half of the time a derived struct or enum: a record read at another struct fails in
+                    // the middle of the value instead of at its first byte
+                    let j = if (composite_only || rng.bool()) && !composite.is_empty() { *rng.pick(&composite) } else { rng.usize(n_types) };
+                    Step::Native(j)
+                }
+                4 => {
+                    let env = gen_env(rng, &tcfg);
+                    let t = gen_types(rng, &tcfg, &env, 1).pop().unwrap();
+                    Step::At(env, t)
+                }
+                _ => Step::Value,
+            };
+            label.push(match &st {
+                Step::Native(i) => reg::with(*i, |t| t.name()),
+                Step::At(env, t) => format!("[{env}] {t}"),
+                Step::Value => "IDLValue".into(),
+            });
+            steps.push(st);
+        }
+        let target = Target::Sequence(steps, format!("reads on one deserializer: {label:?}, then done()"));
+        let mut conf = gen_conf(rng);
+        if conf.dq.is_none() {
+            conf.dq = Some(1_000_000);
+        }
+        judge(ctx, "reads-continue-after-errors", &target, &bad, &conf);
+        ctx.nontrivial(hash_str(&format!("{}|seq{}", error_site(&bad), label.len())));
+    });
+    ctx.cases("mutated-wire-messages", 0.2, |ctx, rng| {
         let Some(wc) = gen_wire_case(rng, &tcfg, 3, 30, true) else { return };
         let bad = hostile::mutate(rng, &wc.bytes);
         let target = if rng.bool() {
